@@ -83,6 +83,11 @@ def cases(rng, tier, shard, nshards):
             yield c
     while True:
         r = rng.random()
+        if rng.random() < 0.002:
+            # a valid document with deeply nested groups, then the removal of the segment they rest on
+            yield {"k": "deep", "n": rng.choice([40, 250, 400, 1200]), "rt": rng.choice("OU"), "vlevel": rng.choice([0, 1]),
+                   "what": rng.choice(["rm-segment", "rm-segment", "rm-inner-group", "write+validate"])}
+            continue
         cfg = {"vlevel": rng.choice([0, 0, 1, 1, 2, 3]), "version": rng.choice([None, None, "gfa1", "gfa2"]),
                "dialect": rng.choice(["standard", "standard", "standard", "rgfa"])}
         if r < 0.35:
@@ -265,6 +270,27 @@ def run(case, ctx):
         return
     if k == "cli":
         return run_cli(case, ctx)
+    if k == "deep":
+        n, rt = case["n"], case["rt"]
+        o = "+" if rt == "O" else ""
+        lines = ["S\ta\t10\t*", "S\tb\t10\t*", "E\te\ta+\tb+\t5\t10$\t0\t5\t*",
+                 "%s\tp0\t%s" % (rt, "a+ e+ b+" if rt == "O" else "a e b")]
+        lines += ["%s\tp%d\tp%d%s" % (rt, i, i - 1, o) for i in range(1, n)]
+        nb = sum(len(l) + 1 for l in lines)
+        r = guarded(ctx, "Gfa(list) (deep nesting)", nb, gfapy.Gfa, lines, version="gfa2", vlevel=case["vlevel"])
+        ctx.count("deep_nesting_documents")
+        if r is None or not r.ok:
+            return
+        g = r.value
+        if case["what"] == "rm-segment":
+            guarded(ctx, "gfa.rm(name) (deep nesting)", nb, g.rm, "a")
+        elif case["what"] == "rm-inner-group":
+            guarded(ctx, "gfa.rm(name) (deep nesting)", nb, g.rm, "p0")
+        else:
+            guarded(ctx, "str(gfa) (deep nesting)", nb, str, g)
+            guarded(ctx, "gfa.validate (deep nesting)", nb, g.validate)
+        guarded(ctx, "str(gfa) (deep nesting)", nb, str, g)
+        return
     rng = random.Random(case["seed"])
     kw = {"vlevel": case["vlevel"], "dialect": case["dialect"]}
     if case["version"]:
